@@ -6,20 +6,25 @@ cd /verif
 ids="$@"; [ -z "$ids" ] && ids=$(ls seeded)
 for sid in $ids; do
   prop=$(python3 -c "import json;print(json.load(open('seeded/$sid/meta.json'))['property'])")
-  git -C /repo status --porcelain --untracked-files=no | grep -q . && { echo "/repo not clean"; exit 2; }
-  git -C /repo apply seeded/$sid/patch.diff || { echo "$sid: patch does not apply"; continue; }
+  # FINAL_WT=<scratch worktree of /repo at HEAD>: apply there and point the check at it (VERIF_REPO) instead of touching /repo - same effect on
+  # the check, and other runs against /repo are not disturbed
+  tree=${FINAL_WT:-/repo}
+  while pgrep -f "check $prop( |\$)" > /dev/null; do sleep 20; done   # never two full runs of one property at a time (shared work directory)
+  git -C $tree status --porcelain --untracked-files=no | grep -q . && { echo "$tree not clean"; exit 2; }
+  pf=/verif/seeded/$sid/patch.diff; [ -f /verif/seeded/$sid/patch_rebased.diff ] && pf=/verif/seeded/$sid/patch_rebased.diff   # rebased onto the current HEAD where later fix: commits touched the same lines
+  git -C $tree apply $pf || { echo "$sid: patch does not apply"; continue; }
   cp evidence/$prop.json .work/evidence_$prop.keep   # evidence of the run against the unchanged /repo is put back afterwards
   t0=$(date +%s)
-  ./check $prop > .work/final_$sid.log 2>&1; rc=$?
+  VERIF_REPO=$tree ./check $prop > .work/final_$sid.log 2>&1; rc=$?
   t1=$(date +%s)
-  git -C /repo checkout -- .
+  git -C $tree checkout -- .
   cp .work/evidence_$prop.keep evidence/$prop.json
   nv=$(grep -c "^VIOLATION" .work/final_$sid.log)
   echo "$(date +%H:%M) $sid ($prop) exit=$rc violations=$nv wall=$((t1-t0))s $(tail -1 .work/final_$sid.log)" | tee -a .work/final_pass.log
   python3 - <<PY
 import json
 p='seeded/$sid/meta.json'; d=json.load(open(p))
-d['final_pass']={'cmd':'git -C /repo apply seeded/$sid/patch.diff; ./check $prop; git -C /repo checkout -- .', 'exit': $rc, 'violation_lines': $nv, 'wall_s': $((t1-t0)),
+d['final_pass']={'cmd':'git -C $tree apply seeded/$sid/patch.diff; VERIF_REPO=$tree ./check $prop; git -C $tree checkout -- .', 'exit': $rc, 'violation_lines': $nv, 'wall_s': $((t1-t0)),
                  'first_violations':[l.strip() for l in open('.work/final_$sid.log') if l.startswith('VIOLATION')][:5]}
 json.dump(d,open(p,'w'),indent=1)
 PY
